@@ -270,4 +270,115 @@ func runC06(r *Result, thorough bool) {
 		cl.close()
 	}
 	r.Stats["max_fair_cycles_needed"] = maxCycles
+	c06Adversarial(r, rng, thorough)
+}
+
+// c06Adversarial: the prefix is a schedule found by the beam search of adversary.go (an election
+// that stays open for many rounds, so that later rounds are decided before an earlier one), replayed
+// on real cores as pulls (creator pulls from the creator of the other-parent) while transactions
+// keep the nodes busy; then the submissions stop and fair all-pairs cycles must bring every node to
+// idle with everything committed.
+func c06Adversarial(r *Result, rng *rand.Rand, thorough bool) {
+	runs := 6
+	if thorough {
+		runs = 40
+	}
+	for ri := 0; ri < runs; ri++ {
+		n := 4
+		if ri%4 == 3 {
+			n = 5
+		}
+		hideDeciders = false
+		minTargetRound = []int{0, 1, 1, 2}[rng.Intn(4)]
+		coreLike = true
+		levs, predicted, _ := beamSearch(rng, n, 16*n+10, 30, 5+rng.Intn(5))
+		coreLike = false
+		r.Inc(fmt.Sprintf("adversarial_prefix_predicted_election_%d_rounds", predicted), 1)
+		cl := newCluster(rng, n, 10000, nil)
+		accepted := map[string]bool{}
+		outOfOrder, maxGap := 0, 0
+		for k, l := range levs {
+			a, b := cl.members[l.creator], cl.members[l.opCreator]
+			if k < 3*n || rng.Intn(4) == 0 {
+				tx := cl.newTx()
+				cl.submit(a, tx)
+				accepted[string(tx)] = true
+			}
+			cl.pull(a, b, -1)
+			waiting := false
+			for _, pr := range a.core.Hashgraph().PendingRounds.GetOrderedPendingRounds() {
+				if !pr.Decided && !waiting {
+					if gap := a.core.Hashgraph().Store.LastRound() - pr.Index; gap > maxGap {
+						maxGap = gap
+					}
+				}
+				if !pr.Decided {
+					waiting = true
+				} else if waiting {
+					outOfOrder++
+					break
+				}
+			}
+		}
+		r.Inc("adversarial_prefix_runs", 1)
+		r.Inc(fmt.Sprintf("adversarial_prefix_longest_election_%d_rounds", maxGap), 1)
+		r.Inc("adversarial_prefix_steps_with_a_round_decided_before_an_earlier_one", outOfOrder)
+		live := cl.activeMembers()
+		done := -1
+		for cyc := 1; cyc <= c06MaxCycles && done < 0; cyc++ {
+			for _, x := range live {
+				for _, y := range live {
+					if x != y {
+						cl.pull(x, y, -1)
+					}
+				}
+			}
+			idle := true
+			for _, m := range live {
+				if m.core.Busy() {
+					idle = false
+				}
+			}
+			if !idle {
+				continue
+			}
+			all := true
+			for _, m := range live {
+				got := map[string]bool{}
+				for _, b := range m.app.delivered {
+					for _, tx := range b.Transactions() {
+						got[string(tx)] = true
+					}
+				}
+				for tx := range accepted {
+					if !got[tx] {
+						all = false
+					}
+				}
+			}
+			if all {
+				done = cyc
+			}
+		}
+		r.Count(fmt.Sprintf("adversarial run %d n=%d steps=%d", ri, n, len(levs)), outOfOrder > 0)
+		if done < 0 {
+			detail := ""
+			for _, m := range live {
+				prs := ""
+				for _, pr := range m.core.Hashgraph().PendingRounds.GetOrderedPendingRounds() {
+					prs += fmt.Sprintf(" %d", pr.Index)
+					if pr.Decided {
+						prs += "D"
+					}
+				}
+				detail += fmt.Sprintf(" [node %d busy=%v pool=%d undetermined=%d pendingLoaded=%d delivered=%d pending rounds:%s]", m.idx, m.core.Busy(), len(m.core.TransactionPool()),
+					len(m.core.Hashgraph().UndeterminedEvents), m.core.Hashgraph().PendingLoadedEvents, len(m.app.delivered), prs)
+			}
+			r.Violate("impl-violation", fmt.Sprintf("after a prefix with a slow election, %d validators did not become idle with everything committed within %d fair all-pairs cycles:%s", n, c06MaxCycles, detail),
+				"not-live-after-slow-election", map[string]interface{}{"n": n, "seed_run": ri})
+		} else {
+			r.Inc("cycles_needed_total", done)
+		}
+		cl.close()
+	}
 }
